@@ -108,8 +108,8 @@ package commonmark
 //@   requires !isnil(container)
 //@   requires[utf8] UTF8OK(source)
 //@   modifies everything
-//@   havoccall (*InlineParser).parseDelimiterRun, (*InlineParser).parseEndBracket, (*InlineParser).parseCodeSpan, (*InlineParser).collectCodeSpan, parseHTMLTag, nodeIndexForPosition, (*InlineParser).processEmphasis keeps inlineState.source, inlineState.root, inlineState.parentMap
-//@   havoccall collectRawHTML keeps inlineState.source, inlineState.root, inlineState.parentMap, Inline.kind
+//@   havoccall (*InlineParser).parseDelimiterRun, (*InlineParser).parseEndBracket, (*InlineParser).parseCodeSpan, (*InlineParser).collectCodeSpan, parseHTMLTag, nodeIndexForPosition, (*InlineParser).processEmphasis keeps inlineState.source, inlineState.root, inlineState.parentMap, elems:byte
+//@   havoccall collectRawHTML keeps inlineState.source, inlineState.root, inlineState.parentMap, Inline.kind, elems:byte
 //@   callsite (*inlineState).addToRoot: requires[shape] LeafShape($1, state.source)
 //@   callsite (*inlineState).addToRoot: requires[parsed] $1.kind != UnparsedKind && $1.kind != 0
 //@   callsite (*inlineState).addToRoot: requires[boundary] ($1.kind == CharacterReferenceKind || $1.kind == AutolinkKind || $1.kind == SoftLineBreakKind || $1.kind == HardLineBreakKind) ==> SpanOnBoundaries($1, state.source)
@@ -117,8 +117,11 @@ package commonmark
 //@   callsite (*InlineParser).parseBackslash: requires[utf8] UTF8OK(state.source)
 //@   callsite (*InlineParser).parseBackslash: requires[at] source[pos] == '\\'
 //@   loop 0: invariant[state] !isnil(state) && !isnil(dummy) && state.root == dummy && state.parentMap != nil && aliases(state.source, source) && len(state.source) == len(source)
+//@   loop 0: invariant[utf8] UTF8OK(source)
 //@   loop 1: invariant[state] !isnil(state) && !isnil(dummy) && state.root == dummy && state.parentMap != nil && aliases(state.source, source) && len(state.source) == len(source)
+//@   loop 1: invariant[utf8] UTF8OK(source)
 //@   loop 2: invariant[state] !isnil(state) && !isnil(dummy) && state.root == dummy && state.parentMap != nil && aliases(state.source, source) && len(state.source) == len(source)
+//@   loop 2: invariant[utf8] UTF8OK(source)
 //@   nosafety index the cursor stays inside the unparsed run and the run inside Source (assumption A-C02-1, DESIGN 7.2)
 //@   nosafety slice the cursor stays inside the unparsed run and the run inside Source (assumption A-C02-1, DESIGN 7.2)
 //@   nosafety nil the unparsed nodes of a block are never nil (assumption A-NODEINV, C05)
